@@ -269,9 +269,11 @@ class Inliner:
                 self.recursive.append((chain, target_fn.path))
                 continue
             if target_fn.f.get("impl_trait") == "core::iter::Iterator" and target_fn.name == "next" and self._writes_own_fields(target_fn):
-                # an iterator type of the crate that is a state machine over its own fields: the interpreter does not
-                # track mutable fields of local aggregates, so what it yields in which order is not known
-                self.lazy_unexpanded.append((self._cur, b, "`%s` is a state machine over its own fields" % target_fn.path.replace("cactusref::", "")))
+                # an iterator type of the crate that is a state machine over its own fields: followed when the iterator
+                # is a local of the caller reached through `&mut local` (its field writes become writes of that local's
+                # fields, _resolve_local_pointers); checked once the whole body is in place
+                self._state_machines = getattr(self, "_state_machines", [])
+                self._state_machines.append((self._cur, b, target_fn.path, len(locals_) + 1))
             loff = len(locals_)
             boff = len(blocks)
             new_locals = copy.deepcopy(target_fn.locals)
@@ -524,6 +526,19 @@ class Inliner:
             memo[x] = r
             return r
         ints = ("int", "bool")
+        # iterator types of the crate whose `next` steps its own fields: followed only when `self` is a local of this body;
+        # accesses through `&mut self` then become accesses of that local's fields
+        sm_locals = set()
+        for (entry, b0, path, selfl) in getattr(self, "_state_machines", []):
+            if entry != self._cur:
+                continue
+            q = pt(selfl) if selfl < n else None
+            tyq = (locals_[q[0]].get("ty") or {}) if q is not None else {}
+            if q is not None and tyq.get("k") == "adt" and tyq.get("peel", 0) == 0 and str(tyq.get("adt", "")).startswith(self.facts.crate + "::") and tyq.get("adt") not in self.HANDLES:
+                sm_locals.add(q[0])
+            else:
+                self.lazy_unexpanded.append((self._cur, b0, "`%s` is a state machine over its own fields (and the iterator is not a plain local of the caller)" % path.replace("cactusref::", "")))
+        self._state_machines = [x for x in getattr(self, "_state_machines", []) if x[0] != self._cur]
 
         def is_place(x):
             return isinstance(x, dict) and "l" in x and isinstance(x.get("p"), list) and isinstance(x["l"], int)
@@ -539,7 +554,10 @@ class Inliner:
             if is_place(x):
                 if x["p"] and x["p"][0] == "*":
                     q = pt(x["l"])
-                    if q is not None and (locals_[q[0]].get("ty") or {}).get("k") in ints:
+                    tyq = (locals_[q[0]].get("ty") or {}) if q is not None else {}
+                    # integer locals, and struct locals of the crate's own types reached through `&mut self`
+                    # (an iterator struct reading and stepping its own fields)
+                    if q is not None and (tyq.get("k") in ints or (q[0] in sm_locals and len(x["p"]) >= 2 and isinstance(x["p"][1], dict) and "f" in x["p"][1])):
                         x["l"], x["p"] = q[0], x["p"][1:]
                         changed[0] = True
                 return
